@@ -107,3 +107,8 @@ CASES += [
     {"name": "look-up of a shift with `in`", "kind": "twin", "edits": [
         (_HO10, "        if self._shifts.count(shift) > 0:\n", "        if shift in self._shifts:\n", 1)]},
 ]
+
+CASES += [
+    {"name": "index of a shift found by an explicit loop with ==", "kind": "twin", "edits": [
+        (_HO10, "        return self._shifts.index(shift)\n", "        for i_, s_ in enumerate(self._shifts):\n            if s_ == shift:\n                return i_\n        raise ValueError(\"shift not stored\")\n", 1)]},
+]
